@@ -74,6 +74,9 @@ func (c CfgSpec) text(extra string) string {
 			b.WriteString("  auth hmac raw:k1\n")
 		case "hmac2":
 			b.WriteString("  auth hmac raw:k2\n")
+		case "fwd200", "fwd401":
+			live, _ := fwdServer()
+			fmt.Fprintf(&b, "  auth forward %s {\n    timeout 500ms\n  }\n", q(live+"/b/"+strings.TrimPrefix(s.Auth, "fwd")))
 		}
 		pp := s.Pull
 		if pp == "" {
@@ -93,7 +96,7 @@ func genCfgSpec(t *rapid.T, label string) CfgSpec {
 	for i := 0; i < 3; i++ {
 		c.Slots[i] = RSlot{
 			On:       rapid.IntRange(0, 3).Draw(t, label+"on") > 0,
-			Auth:     rapid.SampledFrom([]string{"", "", "basic1", "basic2", "hmac1", "hmac2"}).Draw(t, label+"auth"),
+			Auth:     rapid.SampledFrom([]string{"", "", "basic1", "basic2", "hmac1", "hmac2", "fwd200", "fwd401"}).Draw(t, label+"auth"),
 			Pull:     rapid.SampledFrom([]string{"x", "x", "y"}).Draw(t, label+"pull"),
 			RouteTok: rapid.SampledFrom([]string{"", "", "rt1", "rt2"}).Draw(t, label+"rtok"),
 			Methods:  rapid.SampledFrom([]string{"", "", "", "GET"}).Draw(t, label+"methods"),
@@ -228,7 +231,7 @@ func genC18Case() *rapid.Generator[C18Case] {
 			case 0:
 				c.New.Slots[i].On = !c.New.Slots[i].On
 			case 1:
-				c.New.Slots[i].Auth = rapid.SampledFrom([]string{"", "basic1", "basic2", "hmac1", "hmac2"}).Draw(t, "nauth")
+				c.New.Slots[i].Auth = rapid.SampledFrom([]string{"", "basic1", "basic2", "hmac1", "hmac2", "fwd200", "fwd401"}).Draw(t, "nauth")
 			case 2:
 				c.New.Slots[i].Pull = rapid.SampledFrom([]string{"x", "y"}).Draw(t, "npull")
 			case 3:
